@@ -8,7 +8,7 @@ import warnings
 
 from .common import Oracle, Suite, hx, merge
 
-GEN_UNITS = ["Rng", "Handlers", "B64"]
+GEN_UNITS = ["Rng", "Handlers", "B64", "SaltGen"]
 LEAN_TARGETS = ["PasslibVerif.Props.C06"]
 ASSUMPTIONS = [
     "random.SystemRandom (passlib.utils.rng), secrets.choice (libpass._salt) and rng.choice (PhraseGenerator) are assumed uniform",
